@@ -166,6 +166,7 @@ class LiteDRAMNativePortUpConverter(Module):
         # Indicates that we need to proceed to the next port_to command.
         next_cmd         = Signal()
         addr_changed     = Signal()
+        not_ascending    = Signal()
         # Signals that indicate that write/read convertion has finished.
         wdata_finished   = Signal()
         rdata_finished   = Signal()
@@ -241,8 +242,11 @@ class LiteDRAMNativePortUpConverter(Module):
             #  - we received all the `ratio` commands.
             #  - this is the last command in a sequence.
             #  - master requests a flush (even after the command has been sent).
+            # Chunks of a wide word are transferred in ascending order: a command that does not move
+            # forward inside the current word (descending/repeated address) has to start a new access.
+            not_ascending.eq(port_from.cmd.valid & ((sel >> port_from.cmd.addr[:log2_int(ratio)]) != 0)),
             next_cmd.eq(addr_changed | (cmd_we != port_from.cmd.we) | (sel == 2**ratio - 1)
-                        | cmd_last | port_from.flush),
+                        | cmd_last | port_from.flush | not_ascending),
         ]
 
         self.sync += [
